@@ -355,7 +355,12 @@ def child_behaviour(arg):
     elif setting in ('IN_APP_INCLUDE', 'IN_APP_EXCLUDE', 'IN_APP_INCLUDE_LIST', 'IN_APP_EXCLUDE_LIST'):
         key = setting.replace('_LIST', '')
         items = [[target_dir], ['/nonexistent/a', target_dir], ['/nonexistent/a', target_dir, '/nonexistent/b']][variant]
+        if arg.get('variant5', 0) in (3, 4) and not setting.endswith('_LIST'):
+            # a trailing comma (an empty item) names no prefix, in either form: the target file stays unmatched
+            items = ['/nonexistent/a']
         text = ','.join(items)
+        if arg.get('variant5', 0) in (3, 4) and not setting.endswith('_LIST'):
+            text += ','
         if setting.endswith('_LIST') and form == 'code':
             give(key, text, list(items))
         else:
@@ -417,9 +422,9 @@ def child_behaviour(arg):
             if key == 'APP_ROOT':
                 rule = app_rule_for(given, [], [sys.exec_prefix])
             elif key == 'IN_APP_INCLUDE':
-                rule = app_rule_for('/nonexistent/root', given.split(','), [sys.exec_prefix])
+                rule = app_rule_for('/nonexistent/root', [x for x in given.split(',') if x], [sys.exec_prefix])
             else:
-                rule = app_rule_for(verif_dir, [], given.split(',') + ([sys.exec_prefix] if form == 'env' else []))
+                rule = app_rule_for(verif_dir, [], [x for x in given.split(',') if x] + ([sys.exec_prefix] if form == 'env' else []))
             app, shorts = rule(e2e.TARGET)
             if bool(fr.app_frame) != app or fr.short_path not in shorts:
                 out.update(ok=False, why='frame %s classified app=%r short=%r, the rule gives app=%r short in %r' % (
